@@ -16,12 +16,14 @@ const nKeys = 4
 
 type obj struct {
 	kv   *mapz.SafeKV[int, int]
-	init [][]int
+	init  [][]int
+	progs [][][]interface{}
 }
 
 type initState struct {
 	Prog [][][]interface{} `json:"prog"`
-	Init [][]int           `json:"init"`
+	Init  [][]int           `json:"init"`
+	Pairs [][]int           `json:"pairs"`
 }
 
 func factory(s json.RawMessage) (conc.Object, [][]sched.Call, error) {
@@ -29,8 +31,11 @@ func factory(s json.RawMessage) (conc.Object, [][]sched.Call, error) {
 	if err := json.Unmarshal(s, &st); err != nil {
 		return nil, nil, err
 	}
-	o := &obj{kv: mapz.NewSafeKV[int, int](0), init: st.Init}
-	for _, p := range st.Init {
+	o := &obj{kv: mapz.NewSafeKV[int, int](0), init: st.Init, progs: st.Prog}
+	if st.Init == nil && len(st.Pairs) > 0 { // model form: the initial map as pairs
+		o.init = st.Pairs
+	}
+	for _, p := range o.init {
 		o.kv.Set(p[0], p[1])
 	}
 	progs := make([][]sched.Call, len(st.Prog))
@@ -132,10 +137,14 @@ func (o *obj) Exec(tid int, c sched.Call) []interface{} {
 }
 
 func (o *obj) Describe(rec sched.OpRec) interface{} { return []interface{}{rec.Kind} }
-func (o *obj) Shared() interface{}                  { return nil }
-func (o *obj) WhiteBox() bool                       { return false }
 func (o *obj) Probe() map[string]interface{}        { return map[string]interface{}{} }
+
+// ProbeDrain: an observer reads the whole content through the public API - unless a managed
+// goroutine is parked inside a write-locked section (the observer would block for ever).
 func (o *obj) ProbeDrain() map[string]interface{} {
+	if o.writerInside() {
+		return map[string]interface{}{"skipped": true}
+	}
 	m := map[int]int{}
 	o.kv.Range(func(k, v int) bool { m[k] = v; return true })
 	return map[string]interface{}{"pairs": sortedPairs(m), "len": o.kv.Len()}
